@@ -87,6 +87,11 @@ func backendProp(b backendSpec, meaning string) propFunc {
 		c.runTerminatorPredicates(r, "term.lastonly", inPkgs(b.Name))
 		r.floor("term.predicates", 1)
 		if b.Name == "msl" {
+			r.Clauses = append(r.Clauses, "parenthesisation (E30): the predicates that decide whether a child expression is wrapped in parentheses (recognised by guarding the emission of \"(\") agree on the set of loosely rendered expression kinds (Binary, Select, ArrayLength); and wherever the base of an access / access-index or the vector of a swizzle is written and the next emitted text is a postfix operator, such a predicate is asked about that child first, or the child is known to be a pointer")
+			c.runParenSiblings(r, "parens.siblings", inPkgs("msl"))
+			r.floor("parens.siblings", 4)
+			c.runParenPostfix(r, "parens.postfix", inPkgs("msl"), parenPostfixExceptions)
+			r.floor("parens.postfix", 8)
 			r.Clauses = append(r.Clauses, guardAgreeClause)
 			c.runGuardAgree(r, "guard.agree", inPkgs("msl"))
 			r.floor("guard.agree", 3)
@@ -134,4 +139,10 @@ func init() {
 			}
 		}
 	}
+}
+
+var parenPostfixExceptions = map[string]string{
+	"msl/internal/codegen.Writer.writeAccess:access.Base->.inner[#2":           "the base is a value of a wrapped array type (arrayWrappers lookup on its type handle); Binary, Select and ArrayLength expressions never have array type",
+	"msl/internal/codegen.Writer.writeAccessIndex:access.Base->.inner[%d]#2": "the base is a value of a wrapped array type; Binary, Select and ArrayLength expressions never have array type",
+	"msl/internal/codegen.Writer.writeAccessIndex:access.Base->[%d].inner#1": "the base is a binding array (isBindingArray); never a Binary / Select / ArrayLength expression",
 }
